@@ -405,6 +405,9 @@ const NSLOTS: usize = 6;
 static SLOTS: Mutex<Vec<Option<(tracing::Span, u64)>>> = Mutex::new(Vec::new());
 /// spans currently entered on any thread (an exit must never be the operation that closes a span: finding F13)
 static ENTERED_ANY: Mutex<Vec<u64>> = Mutex::new(Vec::new());
+/// slots whose handle is temporarily out of `SLOTS` because another thread is recording on it: the owner must
+/// not treat such a slot as free (it would create a second span there and lose one of the two handles)
+static BUSY: Mutex<Vec<bool>> = Mutex::new(Vec::new());
 
 fn thread_body(t: usize, d: Dispatch, mine: Vec<(usize, Value)>, sync: bool) {
     let _g = dispatch::set_default(&d);
@@ -431,7 +434,7 @@ fn thread_body(t: usize, d: Dispatch, mine: Vec<(usize, Value)>, sync: bool) {
                 true
             }
             "span" => {
-                let free = SLOTS.lock().unwrap()[slot].is_none();
+                let free = SLOTS.lock().unwrap()[slot].is_none() && !BUSY.lock().unwrap()[slot];
                 if !free {
                     return false;
                 }
@@ -469,6 +472,7 @@ fn thread_body(t: usize, d: Dispatch, mine: Vec<(usize, Value)>, sync: bool) {
                 let taken = SLOTS.lock().unwrap()[slot].take();
                 match taken {
                     Some((sp, u)) => {
+                        BUSY.lock().unwrap()[slot] = true;
                         let field = s["field"].as_str().unwrap_or("later");
                         match &s["rec"] {
                             Value::String(x) => {
@@ -483,6 +487,7 @@ fn thread_body(t: usize, d: Dispatch, mine: Vec<(usize, Value)>, sync: bool) {
                             _ => {}
                         }
                         SLOTS.lock().unwrap()[slot] = Some((sp, u));
+                        BUSY.lock().unwrap()[slot] = false;
                         true
                     }
                     None => false,
@@ -559,9 +564,11 @@ impl Engine for JsonEngine {
         // macro, so there is no handle to enter; the fault only tests that later records stay valid)
         let f19_guard = false;
         let mut steps = vec![];
+        let hot = rng.below(NSLOTS as u64);
         for _ in 0..n {
             let mut t = rng.below(nthreads);
-            let slot = rng.below(NSLOTS as u64);
+            // most steps concentrate on one slot so that create / enter / record-later / emit-inside chains form
+            let slot = if rng.chance(2, 3) { hot } else { rng.below(NSLOTS as u64) };
             let roll = rng.below(100);
             // under seeded schedules a handle is created, entered and dropped by one owner thread (another thread
             // may record on it or emit inside it); otherwise enter could race with the last drop, which is misuse
@@ -608,6 +615,7 @@ impl Engine for JsonEngine {
         let steps: Vec<Value> = plan["steps"].as_array().cloned().unwrap_or_default();
         std::panic::set_hook(Box::new(|_| {}));
         *SLOTS.lock().unwrap() = (0..NSLOTS).map(|_| None).collect();
+        *BUSY.lock().unwrap() = vec![false; NSLOTS];
         let sync = sched.sync;
         let cfg2 = cfg.clone();
         let body = move || {
